@@ -43,11 +43,14 @@ static float vt_float(void){ float v=nondet_float(); return v; }
 static int vt_range(int lo,int hi){ int v=vt_int(); __CPROVER_assume(v>=lo&&v<=hi); return v; }
 /* exact-size heap object of n bytes (n may be symbolic); non-NULL by assumption (allocation
    failure is only in scope for C11-H2, which does not use this helper) */
-static void *vt_alloc(size_t n){ void *p=malloc(n?n:1); __CPROVER_assume(p!=0); 
+static void *vt_alloc(size_t n){
 #ifdef VT_REPLAY
-  if(n==0){ free(p); p=malloc(0); }
+  /* place the object so that it ENDS at the end of an allocation: ASan then sees a 1-byte over-read even for n==0 */
+  unsigned char *b=malloc(n+16); return b+16;
+#else
+  void *p=malloc(n); __CPROVER_assume(p!=0); return p;
 #endif
-  return p; }
+}
 /* fill p[0..n) with symbolic bytes, n<=max; max is a compile-time constant loop bound */
 #define VT_FILL(p,n,max) do{ for(int vt_i=0; vt_i<(max); vt_i++) if(vt_i<(n)) ((unsigned char*)(p))[vt_i]=vt_uchar(); }while(0)
 
